@@ -11,8 +11,10 @@ CFG = {'assumptions': ['tokio timer, mpsc and oneshot semantics; xxh64 collision
                'scheduling outside the model',
  'level_text': 'Lean theorems: FIFO head of the request queue, user requests before phase 2, turn order '
                '(rotate), polls only when due / re-armed one period after completion / never passed over / '
-               'demand, keep-alive only after the deadline, and idle_sleeps: every wake-up time handed to '
-               'the timer is strictly in the future',
+               'demand, keep-alive only after the deadline, a received fragment re-arms the keep-alive '
+               'deadline of its SOURCE association and of no other in every session mode (D25 repaired; '
+               'regression corpus harness/corpus/C19/master_D25.ops), and idle_sleeps: every wake-up time '
+               'handed to the timer is strictly in the future',
  'module': 'Dnp3.Props.C19',
  'monitors': ['user_fifo_first',
               'user_requests_first',
